@@ -157,12 +157,15 @@ Inductive decision :=
 | Reply (payload : list Z)     (* exactly one write of this NTP payload *)
 | Crash.                       (* panic *)
 
+Definition nts_max_packet_len : Z := 1024. (* nts.MaxPacketLen *)
+
 Definition ntp_decision (b : list Z) (e : env) : decision :=
   match decode_packet b with
   | None => NoReply                                   (* failed to decode packet payload *)
   | Some req =>
     let nts_branch := packet_len <? zlen b in         (* len(buf) > ntp.PacketLen *)
-    if nts_branch && negb (e_nts_ok e) then NoReply   (* one of the NTS steps failed *)
+    (* nts.DecodePacket: len(b) > MaxPacketLen => errPacketTooLong, before anything else is looked at *)
+    if nts_branch && ((nts_max_packet_len <? zlen b) || negb (e_nts_ok e)) then NoReply   (* one of the NTS steps failed *)
     else
     let authenticated := nts_branch in
     if negb (validate_request req) then NoReply       (* failed to validate packet payload *)
